@@ -209,4 +209,3 @@ func devCmd(args []string) {
 	}
 	fmt.Println(strings.Repeat("-", 20), d.Stats.BySolver, d.Stats.MillisBy)
 }
-
